@@ -26,10 +26,10 @@ package diff
 //@   ensures err-nil: result.1 != nil ==> result.0 == nil
 //@   ensures edits: result.1 == nil ==> (forall k: value :: dkeys[result.0.edits][k] <==> ((mhas(old, k) && !mhas(new, k)) || (!mhas(old, k) && mhas(new, k)) || (mhas(old, k) && mhas(new, k) && !steq(mget(old, k), mget(new, k)))))
 //@   modifies heap, dkeys, dvals, it_seen
-//@   loop 0: invariant edits != nil && it_src(oldKeys) == old
-//@   loop 0: invariant old-keys: forall k: value :: dkeys[edits][k] <==> (it_seen[oldKeys][k] && mhas(old, k) && (!mhas(new, k) || !steq(mget(old, k), mget(new, k))))
-//@   loop 1: invariant edits != nil && it_src(newKeys) == new
-//@   loop 1: invariant new-keys: forall k: value :: dkeys[edits][k] <==> ((mhas(old, k) && (!mhas(new, k) || !steq(mget(old, k), mget(new, k)))) || (it_seen[newKeys][k] && mhas(new, k) && !mhas(old, k)))
+//@   loop over for#1: invariant edits != nil && it_src(oldKeys) == old
+//@   loop over for#1: invariant old-keys: forall k: value :: dkeys[edits][k] <==> (it_seen[oldKeys][k] && mhas(old, k) && (!mhas(new, k) || !steq(mget(old, k), mget(new, k))))
+//@   loop over for#2: invariant edits != nil && it_src(newKeys) == new
+//@   loop over for#2: invariant new-keys: forall k: value :: dkeys[edits][k] <==> ((mhas(old, k) && (!mhas(new, k) || !steq(mget(old, k), mget(new, k)))) || (it_seen[newKeys][k] && mhas(new, k) && !mhas(old, k)))
 
 //@ func (*diff.valueDiff).Old
 //@   requires d != nil
